@@ -1082,12 +1082,21 @@ func (s *Session) expected(c *Chunk) []byte {
 	if err != nil {
 		return nil
 	}
+	// candidates are looked up by content, not by file name (an altered TOC may rename entries)
 	var cands [][]byte
 	if w := c.File.Want; w != nil && c.Off+c.Size <= int64(len(w)) {
 		cands = append(cands, w[c.Off:c.Off+c.Size])
 	}
+	for _, f := range s.B.Files {
+		if c.Off+c.Size <= int64(len(f.Data)) {
+			cands = append(cands, f.Data[c.Off:c.Off+c.Size])
+		}
+	}
+	if c.Off == 0 && c.Size == 1 {
+		cands = append(cands, []byte{0xf}) // landmark files
+	}
 	for _, v := range s.Views {
-		if p, ok := v.Forged[chunkKey(c.File.Name, c.Off)]; ok {
+		for _, p := range v.Forged {
 			cands = append(cands, p)
 		}
 	}
